@@ -10,6 +10,9 @@
      r.ctx       the call's context was done when the re-send was decided
      r.closed    Close() had returned when the re-send was decided
 
+   A command may be one member of a DoMulti batch (possibly an explicit MULTI ... EXEC block): the predicates are about one
+   *member*, with its own class -- what its neighbours are allowed to do never makes its own re-send legitimate.
+
    Retry.tla (the decision logic of the client wrappers) is model-checked against these predicates and
    RetryTrace.tla applies the same predicates to the re-sends observed in traces of the real client. *)
 EXTENDS Integers, Sequences, FiniteSets
@@ -23,12 +26,14 @@ Kinds       == {"single", "standalone", "sentinel", "dedicated"} \cup ClusterKin
 Replies     == {"ok", "nil", "errreply"}                       \* ordinary replies: returned as they are
 LoadingLike == {"LOADING", "TRYAGAIN", "CLUSTERDOWN"}
 Redirects   == {"MOVED", "ASK", "REDIRECT"}                    \* prove that the command was not executed
-Transport   == {"cut-before-exec", "cut-after-exec", "cut-mid-reply"}   \* the connection broke during the attempt
+Transport   == {"cut-before-exec", "cut-after-exec", "cut-mid-reply",   \* the connection broke during the attempt
+                "expired-io"}       \* ... because the client's own ConnLifetime timer closed it under a request in flight on the
+                                    \* synchronous path (reply later than the 1 s close grace): the caller gets the I/O error
 ExpiredOut  == {"expired-unsent", "expired-sent"}              \* the connection reached ConnLifetime (client closed it)
 Local       == {"ctxdone", "closing"}                          \* nothing was transmitted
 Outcomes    == Replies \cup LoadingLike \cup Redirects \cup Transport \cup ExpiredOut \cup Local
 \* outcomes after which the server has executed the command
-Executes(o) == o \in {"ok", "nil", "cut-after-exec", "cut-mid-reply", "expired-sent"}
+Executes(o) == o \in {"ok", "nil", "cut-after-exec", "cut-mid-reply", "expired-sent", "expired-io"}
 
 \* a redirection is followed by the wrappers that understand it, whatever the command class: not a retry
 IsRedirect(r) == \/ r.prev \in {"MOVED", "ASK"} /\ r.kind \in ClusterKinds
